@@ -31,6 +31,7 @@ type loopInfo struct {
 	ordinal int
 	ann     *LoopAnn
 	unroll  int
+	foreign *frame // the loop contract was adopted from this enclosing frame (loop moved into an inlined helper)
 }
 
 type frame struct {
@@ -52,6 +53,7 @@ type frame struct {
 	curEnv      map[ssa.Value]Val
 	errCalls    []errCall // C03 schema: fallible calls made by this frame
 	exemptC03   bool      // inside a call tree whose error is deliberately swallowed
+	callPos     string    // position of the call this frame was inlined at
 	order       []nkey
 	succs       map[nkey][]nkey
 }
@@ -174,16 +176,38 @@ func (vc *VC) execFunc(fn *ssa.Function, args []Val, st *State, reach string, de
 			l.unroll = l.ann.Unroll
 		}
 	}
-	if contract != nil && depth == 0 && vc.quiet == 0 {
+	if contract != nil && len(contract.Loops) > 0 {
+		// loop contracts whose loop is gone from this function (moved into a helper, merged, rewritten) are
+		// offered, in order, to the contract-less loops of the helpers inlined into it (adoptLoopContracts);
+		// whatever is not adopted when the function returns is reported as a stale loop contract.
+		var ords []int
 		for ord := range contract.Loops {
 			if ord >= len(fr.loops) {
-				// the loop a loop contract was written for is gone (moved into a helper, merged, rewritten):
-				// the contract has to move with it. Undecided, reported under its own name.
-				vc.oblige("stale-loop", fmt.Sprintf("%s#stale-loop-contract:loop%d", shortFn(fn), ord), vc.pos(fn.Pos()),
-					fmt.Sprintf("loop %d of the contract [%s] no longer exists in the function (it has %d loops): the proof has to be redone for the rewritten code", ord, contract.Src, len(fr.loops)), reach, "false", nil)
+				ords = append(ords, ord)
 			}
 		}
+		sort.Ints(ords)
+		if len(ords) > 0 {
+			for _, ord := range ords {
+				vc.orphans = append(vc.orphans, &orphanAnn{ann: contract.Loops[ord], owner: fr, ord: ord})
+			}
+			defer func() {
+				var keep []*orphanAnn
+				for _, o := range vc.orphans {
+					if o.owner != fr {
+						keep = append(keep, o)
+						continue
+					}
+					if !o.adopted && vc.quiet == 0 {
+						vc.oblige("stale-loop", fmt.Sprintf("%s#stale-loop-contract:loop%d", shortFn(fn), o.ord), vc.pos(fn.Pos()),
+							fmt.Sprintf("loop %d of the contract [%s] no longer exists in the function (it has %d loops) and no loop of an inlined helper took it over: the proof has to be redone for the rewritten code", o.ord, contract.Src, len(fr.loops)), "true", "false", nil)
+					}
+				}
+				vc.orphans = keep
+			}()
+		}
 	}
+	fr.callPos = vc.nextCallPos
 	if nested {
 		for _, l := range fr.loops {
 			l.unroll = 0
